@@ -361,6 +361,35 @@ def c19_8(ck, prog):
         r.ok('start_element:type-recorded-on-every-path')
 
 
+def c19_9(ck, prog):
+    r = ck.rule('C19.9', 'an error about a held message is addressed to the connection that sent that message: wherever '
+                'an error reply is built in reply to entry->activation_message, it is sent to entry->connection of the '
+                'same entry', 'WHO',
+                breaks='the sender whose held call was refused (or failed) hears nothing, and somebody else -- the '
+                'newly started service -- receives an error reply to a call it never made', floor=2)
+    REC = 'BusPendingActivationEntry'
+    n = 0
+    for fn in lib.prod_funcs(prog, files={A}):
+        for b, i, c in fn.calls(('bus_transaction_send_error_reply', 'bus_connection_send_oom_error')):
+            if c['callee'] == 'bus_transaction_send_error_reply':
+                conn, msg = c['args'][1], c['args'][3]
+            else:
+                conn, msg = c['args'][0], c['args'][1]
+            if not is_member(msg, 'activation_message', REC):
+                continue
+            n += 1
+            key = '%s:%s@%d' % (fn.name, c['callee'], n)
+            from engine.cfg import same_expr
+            if is_member(conn, 'connection', REC) and same_expr(conn['base'], msg['base']):
+                r.ok(key)
+            else:
+                r.violation('%s:%s-to-wrong-connection' % (fn.name, c['callee']), fn.name, A, c['line'],
+                            'the error in reply to %s is sent to %s, not to the connection that sent that message' % (
+                                estr(msg), estr(conn)))
+    if n < 2:
+        raise AnalysisBroken('error replies to held messages not found (%d)' % n)
+
+
 def run(ck):
     ck.explanation = (
         'Static rules over bus/activation-helper.c and bus/activation.c: (DOM/WHO) execv is reachable only through '
@@ -378,6 +407,7 @@ def run(ck):
         c19_3(ck, prog)
         c19_7(ck, prog)
         c19_8(ck, prog)
+        c19_9(ck, prog)
         r = ck.rule('C19.6', 'pending activations (and the messages they hold) survive everything but the end of the '
                     'bus: the table of pending activations and the activation object are created once and released '
                     'only by their destructors, never by a configuration reload', 'WHO',
